@@ -39,6 +39,7 @@ pub struct CopyHandle {
     pub outfd: File,
     pub metadata: Metadata,
     pub config: Arc<Config>,
+    finalised: bool,
 }
 
 impl CopyHandle {
@@ -69,6 +70,7 @@ impl CopyHandle {
             outfd,
             metadata,
             config: config.clone(),
+            finalised: false,
         };
 
         Ok(handle)
@@ -155,10 +157,22 @@ impl CopyHandle {
         }
         Ok(())
     }
+
+    /// Apply the requested metadata and sync to the destination and
+    /// close the handle, returning any failure to the caller. A
+    /// handle that is merely dropped still does this, but can only
+    /// log the error.
+    pub fn finalise(mut self) -> Result<()> {
+        self.finalised = true;
+        self.finalise_copy()
+    }
 }
 
 impl Drop for CopyHandle {
     fn drop(&mut self) {
+        if self.finalised {
+            return;
+        }
         // FIXME: Should we check for panicking() here?
         if let Err(e) = self.finalise_copy() {
             error!("Error during finalising copy operation {:?} -> {:?}: {}", self.infd, self.outfd, e);
